@@ -8,6 +8,7 @@
 -/
 import Theorems.Lemmas.SettleKnown
 import Theorems.Dispose
+import Theorems.Resume
 
 namespace Amqp.Settle
 open Amqp Amqp.Gen.Settle
